@@ -29,113 +29,192 @@ def run(ctx):
     eff = Effects(ctx)
     with res.guard("check_purectx, eff, res, hashing.hash_hypergraph, rootshypergraph,"):
         check_pure(ctx, eff, res, "hashing.hash_hypergraph", roots=("hypergraph",))
-    hh = ctx.view("hashing.hash_hypergraph")
-    # json.dumps(..., sort_keys=True)
-    dumps = [n for n in ast.walk(hh.fi.node) if isinstance(n, ast.Call) and isinstance(n.func, ast.Attribute) and n.func.attr == "dumps"]
-    if not dumps:
-        raise AnalysisError("hash_hypergraph: json.dumps call not found")
-    for d in dumps:
-        sk = [k for k in d.keywords if k.arg == "sort_keys"]
-        res.check(bool(sk) and isinstance(sk[0].value, ast.Constant) and sk[0].value.value is True, "S-HASHSORT", hh.fi.short, norm(d), "sort_keys", "the JSON text is produced without sort_keys=True: dict insertion order leaks into the hash", loc(hh.fi, d))
-    # the digest is computed from the serialised exposed attributes
-    calls = [n for n in ast.walk(hh.fi.node) if isinstance(n, ast.Call) and isinstance(n.func, ast.Attribute) and n.func.attr == "expose_attributes_for_hashing"]
-    res.check(bool(calls), "S-HASHFIELDS", hh.fi.short, "hypergraph.expose_attributes_for_hashing()", "source", "the hash is not computed from the exposed attributes", loc(hh.fi, hh.fi.node))
-    ser = hh.fi.nested.get("serialize")
-    if ser is not None:
-        comps = [n for n in ast.walk(ser.node) if isinstance(n, ast.DictComp)]
-        ok = any(isinstance(c.generators[0].iter, ast.Call) and isinstance(c.generators[0].iter.func, ast.Name) and c.generators[0].iter.func.id == "sorted" for c in comps)
-        res.check(ok or not comps, "S-HASHSORT", hh.fi.short, norm(comps[0]) if comps else "serialize", "serialize-dict", "serialize() rebuilds dicts without sorting their keys", loc(ser, ser.node))
-
-    if ser is not None:
-        # list values are content: their order must survive serialisation (only dict KEYS are order-free)
-        sorts = [n for n in ast.walk(ser.node) if isinstance(n, ast.Call) and ((isinstance(n.func, ast.Name) and n.func.id == "sorted") or (isinstance(n.func, ast.Attribute) and n.func.attr == "sort"))]
-        bad = []
-        for c in sorts:
-            arg = c.args[0] if c.args else (c.func.value if isinstance(c.func, ast.Attribute) else None)
-            in_dict_branch = any(isinstance(i, ast.If) and "dict" in norm(i.test) and any(c is x for b in i.body for x in ast.walk(b)) for i in ast.walk(ser.node))
-            is_keys = isinstance(c.func, ast.Name) and arg is not None and isinstance(v_parent(ser.node, c), ast.comprehension) and in_dict_branch
-            if not is_keys:
-                bad.append(c)
-        res.check(not bad, "S-HASHSORT", hh.fi.short, norm(bad[0]) if bad else "serialize: lists keep their order", "lists-ordered", "serialize() re-orders list values: two hypergraphs whose metadata lists differ only in item order get the same hash", loc(ser, bad[0] if bad else ser.node))
+    with res.guard("hash_hypergraph: serialisation"):
+        hh = ctx.view("hashing.hash_hypergraph")
+        # json.dumps(..., sort_keys=True)
+        units = [hh.fi] + list(hh.fi.nested.values())
+        for n in ast.walk(hh.fi.node):
+            if isinstance(n, ast.Call):
+                for c in ctx.callees(hh.fi, n):
+                    if c.module is hh.fi.module and c not in units:
+                        units.append(c)
+                        units.extend(c.nested.values())
+        dumps = [(u, n) for u in units for n in walk_no_nested(u.node) if isinstance(n, ast.Call) and isinstance(n.func, ast.Attribute) and n.func.attr == "dumps"]
+        if not dumps:
+            raise AnalysisError("hash_hypergraph: json.dumps call not found")
+        sorted_keys = True
+        for u, d in dumps:
+            sk = [k for k in d.keywords if k.arg == "sort_keys"]
+            good = bool(sk) and isinstance(sk[0].value, ast.Constant) and sk[0].value.value is True
+            sorted_keys = sorted_keys and good
+            res.check(good, "S-HASHSORT", hh.fi.short, norm(d), "sort_keys", "the JSON text is produced without sort_keys=True: dict insertion order leaks into the hash", loc(u, d))
+        # the digest is computed from the serialised exposed attributes
+        calls = [n for u in units for n in ast.walk(u.node) if isinstance(n, ast.Call) and isinstance(n.func, ast.Attribute) and n.func.attr == "expose_attributes_for_hashing"]
+        res.add("S-HASHFIELDS", hh.fi.short, "hypergraph.expose_attributes_for_hashing()", "source", "ok" if calls else "unknown", "" if calls else "the call that obtains the pre-image was not recognised", loc(hh.fi, hh.fi.node))
+        # the serialiser (a nested or module-level function that recurses over dicts / lists): list values are content -
+        # their order must survive (only dict KEYS are order-free)
+        sers = [u for u in units if u is not hh.fi and any(isinstance(n, ast.Call) and isinstance(n.func, ast.Name) and n.func.id == "isinstance" for n in ast.walk(u.node))]
+        if not sers:
+            res.unknown("S-HASHSORT", hh.fi.short, "serialize", "lists-ordered", "no recursive serialiser recognised", loc(hh.fi, hh.fi.node))
+        for ser in sers:
+            sv = ctx.view(ser)
+            sorts = [n for n in walk_no_nested(ser.node) if isinstance(n, ast.Call) and ((isinstance(n.func, ast.Name) and n.func.id == "sorted") or (isinstance(n.func, ast.Attribute) and n.func.attr == "sort"))]
+            bad = []
+            for c in sorts:
+                cid = sv.cfg_id(c)
+                where = None  # 'dict' | 'seq' | None
+                for i in walk_no_nested(ser.node):
+                    if not isinstance(i, ast.If):
+                        continue
+                    for atom, _ in RC._atoms(i.test, True):
+                        if isinstance(atom, ast.Call) and isinstance(atom.func, ast.Name) and atom.func.id == "isinstance" and len(atom.args) == 2:
+                            tn = norm(atom.args[1])
+                            lab = RC._implied_branch(i.test, atom, True)
+                            tid = sv.cfg.by_ast.get(id(i.test))
+                            inside = any(c is x for b_ in i.body for x in ast.walk(b_)) if lab == "T" else False
+                            if lab and tid is not None and (inside or (cid != tid and sv.cfg.branch_dominated(tid, lab, cid))):
+                                where = "dict" if "dict" in tn or "Mapping" in tn else ("seq" if any(t in tn for t in ("list", "tuple", "set")) else where)
+                if where == "seq":
+                    bad.append(c)
+            res.check(not bad, "S-HASHSORT", hh.fi.short, norm(bad[0]) if bad else "serialize: lists keep their order", "lists-ordered", "serialize() re-orders list values: two hypergraphs whose metadata lists differ only in item order get the same hash", loc(ser, bad[0] if bad else ser.node))
     for cls in T.CONTAINERS:
         d = f"{cls}.expose_attributes_for_hashing"
         v = ctx.view(d)
         f = v.fi.short
-        with res.guard("check_purectx, eff, res, d, rootsself,"):
+        with res.guard(f"E-PURE of {d}"):
             check_pure(ctx, eff, res, d, roots=("self",))
         ctx.add_sites(res, ctx.sites(rules=("K-KEY",), funcs=[f]))
-        # ---- S-HASHSORT: every append target list is filled inside a loop over sorted(...)
-        appends = [n for n in walk_no_nested(v.fi.node) if isinstance(n, ast.Call) and isinstance(n.func, ast.Attribute) and n.func.attr == "append" and isinstance(n.func.value, ast.Name)]
-        if not appends:
-            raise AnalysisError(f"{f}: list-building idiom not recognised")
-        for a in appends:
-            lp = v.enclosing(a, (ast.For,))
-            ok = lp is not None and isinstance(lp.iter, ast.Call) and isinstance(lp.iter.func, ast.Name) and lp.iter.func.id == "sorted" and not lp.iter.keywords
-            res.check(ok, "S-HASHSORT", f, norm(lp.iter) if lp is not None else norm(a), a.func.value.id, f"the `{a.func.value.id}` list of the pre-image is not built by iterating sorted(...): insertion order leaks into the hash", loc(v.fi, a))
+        # the units that build the pre-image: the method, its nested functions, the private methods it calls on self
+        units = [v.fi] + list(v.fi.nested.values())
+        for n in ast.walk(v.fi.node):
+            if isinstance(n, ast.Call) and isinstance(n.func, ast.Attribute) and isinstance(n.func.value, ast.Name) and n.func.value.id == "self":
+                for c in ctx.callees(v.fi, n):
+                    if c.cls is v.fi.cls and c.name.startswith("_") and c not in units:
+                        units.append(c)
+                        units.extend(c.nested.values())
+        uviews = [ctx.view(u) for u in units]
+        ctx.add_sites(res, ctx.sites(rules=("K-KEY",), funcs=[u.short for u in units[1:]]))
+        # ---- S-HASHSORT: no iteration over a table (or anything else unordered) that is not through sorted(...)
+        with res.guard(f"S-HASHSORT of {d}"):
+            n_iter = 0
+            for uv in uviews:
+                for n in walk_no_nested(uv.fi.node):
+                    its = []
+                    if isinstance(n, ast.For):
+                        its.append(n.iter)
+                    elif isinstance(n, (ast.ListComp, ast.SetComp, ast.DictComp, ast.GeneratorExp)):
+                        its += [g.iter for g in n.generators]
+                    elif isinstance(n, ast.Call) and isinstance(n.func, ast.Name) and n.func.id == "map" and len(n.args) >= 2:
+                        its += n.args[1:]
+                    for it in its:
+                        e = uv.inline(it)
+                        k = uv.kind(it)
+                        is_sorted = isinstance(e, ast.Call) and isinstance(e.func, ast.Name) and e.func.id == "sorted"
+                        tableish = bool(uv.tables_of(getattr(e, "_orig", e))) or (isinstance(e, ast.Call) and isinstance(e.func, ast.Attribute) and e.func.attr in ("keys", "items", "values", "get_nodes", "get_edges") ) or isinstance(k, (Dct,))
+                        inner_seq = isinstance(k, (Seq, Tup)) or (isinstance(k, Lst) and k.sorted)
+                        n_iter += 1
+                        if is_sorted:
+                            keyed = [kw for kw in e.keywords if kw.arg == "key"]
+                            simple_key = all(isinstance(kw.value, ast.Lambda) and isinstance(kw.value.body, ast.Subscript) and isinstance(kw.value.body.slice, ast.Constant) and kw.value.body.slice.value == 0 for kw in keyed)
+                            res.add("S-HASHSORT", f, norm(it), "iteration", "ok" if simple_key else "unknown", "" if simple_key else "sorted with a custom key", loc(uv.fi, it))
+                        elif tableish:
+                            res.violation("S-HASHSORT", f, norm(it), "iteration", f"the pre-image is built by iterating `{norm(e)}` directly instead of sorted(...): insertion order leaks into the hash", loc(uv.fi, it))
+                        elif inner_seq or (isinstance(e, (ast.Tuple, ast.List))) or (isinstance(e, ast.Call) and norm(e.func) in ("range", "enumerate", "zip")):
+                            res.ok("S-HASHSORT", f, norm(it), "iteration", loc(uv.fi, it))
+                        else:
+                            res.unknown("S-HASHSORT", f, norm(it), "iteration", "order of this iteration not decided", loc(uv.fi, it))
+            if n_iter == 0:
+                raise AnalysisError(f"{f}: list-building idiom not recognised")
         # ---- S-HASHFIELDS
-        ret = [n for n in walk_no_nested(v.fi.node) if isinstance(n, ast.Return) and isinstance(n.value, ast.Dict)]
-        if not ret:
-            raise AnalysisError(f"{f}: returned dict literal not found")
-        rd = {k.value: val for k, val in zip(ret[0].value.keys, ret[0].value.values) if isinstance(k, ast.Constant)}
-        for key in ("type", "weighted", "hypergraph_metadata", "edges", "nodes"):
-            res.check(key in rd, "S-HASHFIELDS", f, f'"{key}"', "top-level", f"`{key}` is missing from the hash pre-image: two hypergraphs differing only in it get the same hash", loc(v.fi, ret[0]))
-        if "type" in rd:
-            res.check(isinstance(rd["type"], ast.Constant) and rd["type"].value == cls, "S-HASHFIELDS", f, norm(rd["type"]), "type-tag", "the type tag is not the class name", loc(v.fi, ret[0]))
-        if "weighted" in rd:
-            res.check(is_self_attr(rd["weighted"], "_weighted"), "S-HASHFIELDS", f, norm(rd["weighted"]), "weighted", "weightedness is not taken from self._weighted", loc(v.fi, ret[0]))
-        if "hypergraph_metadata" in rd:
-            res.check(is_self_attr(rd["hypergraph_metadata"], "_hypergraph_metadata"), "S-HASHFIELDS", f, norm(rd["hypergraph_metadata"]), "hypergraph_metadata", "hypergraph metadata is not taken from self._hypergraph_metadata", loc(v.fi, ret[0]))
-        recs = {}
-        for a in appends:
-            if a.args and isinstance(a.args[0], ast.Dict):
-                recs[a.func.value.id] = (a, {k.value: val for k, val in zip(a.args[0].keys, a.args[0].values) if isinstance(k, ast.Constant)})
-        edge_list_name = rd["edges"].id if isinstance(rd.get("edges"), ast.Name) else None
-        node_list_name = rd["nodes"].id if isinstance(rd.get("nodes"), ast.Name) else None
-        if edge_list_name not in recs or node_list_name not in recs:
-            raise AnalysisError(f"{f}: edge / node record idiom not recognised")
-        a, er = recs[edge_list_name]
-        for key in ("nodes", "weight", "metadata"):
-            res.check(key in er, "S-HASHFIELDS", f, f'edge record "{key}"', "edge-record", f"hyperedge `{key}` is missing from the hash pre-image", loc(v.fi, a))
-        if "nodes" in er:
-            k = unrole(v.kind(er["nodes"]))
-            want = unrole(T.KEY_C[cls])
-            verdict = _shape_ok(k, want)
-            res.add("S-HASHFIELDS", f, norm(er["nodes"]), "edge-key", verdict, "" if verdict == "ok" else f"the hashed hyperedge identity has kind {k!r}; the record key is {want!r} (a component such as time / layer / one role is lost)", loc(v.fi, a))
-        if "weight" in er:
-            k = strip_none(v.kind(er["weight"]))
-            vv = fits(k, WEIGHT)
-            res.add("S-HASHFIELDS", f, norm(er["weight"]), "edge-weight", "violation" if isinstance(vv, Mismatch) else ("unknown" if isinstance(k, _Top) else "ok"), getattr(vv, "reason", ""), loc(v.fi, a))
-        if "metadata" in er:
-            k = strip_none(v.kind(er["metadata"]))
-            vv = fits(k, META)
-            res.add("S-HASHFIELDS", f, norm(er["metadata"]), "edge-metadata", "violation" if isinstance(vv, Mismatch) else ("unknown" if isinstance(k, _Top) else "ok"), getattr(vv, "reason", ""), loc(v.fi, a))
-        a, nr = recs[node_list_name]
-        for key in ("node", "metadata"):
-            res.check(key in nr, "S-HASHFIELDS", f, f'node record "{key}"', "node-record", f"node `{key}` is missing from the hash pre-image", loc(v.fi, a))
-        if "node" in nr:
-            k = v.kind(nr["node"])
-            res.add("S-HASHFIELDS", f, norm(nr["node"]), "node-label", "ok" if isinstance(k, Atom) and k.name == "NODE" else ("unknown" if isinstance(k, _Top) else "violation"), f"kind {k!r}", loc(v.fi, a))
-        if "metadata" in nr:
-            k = strip_none(v.kind(nr["metadata"]))
-            res.add("S-HASHFIELDS", f, norm(nr["metadata"]), "node-metadata", "ok" if k == META else ("unknown" if isinstance(k, _Top) else "violation"), f"kind {k!r}", loc(v.fi, a))
+        with res.guard(f"S-HASHFIELDS of {d}"):
+            dicts = []  # (view, Dict node, {key: value expr})
+            for uv in uviews:
+                for n in walk_no_nested(uv.fi.node):
+                    if isinstance(n, ast.Dict) and n.keys and all(isinstance(k, ast.Constant) and isinstance(k.value, str) for k in n.keys):
+                        dicts.append((uv, n, {k.value: val for k, val in zip(n.keys, n.values)}))
+                    # dict(node=..., metadata=...)
+                    if isinstance(n, ast.Call) and isinstance(n.func, ast.Name) and n.func.id == "dict" and n.keywords and not n.args and all(kw.arg for kw in n.keywords):
+                        dicts.append((uv, n, {kw.arg: kw.value for kw in n.keywords}))
+            # fields added later to a record held in a local: `rec = {"nodes": ...}; rec["weight"] = ...`
+            for uv, node, fields in dicts:
+                par = uv.parent.get(id(node))
+                if isinstance(par, ast.Assign) and isinstance(par.targets[0], ast.Name):
+                    var = par.targets[0].id
+                    for n in walk_no_nested(uv.fi.node):
+                        if isinstance(n, ast.Assign) and isinstance(n.targets[0], ast.Subscript) and norm(n.targets[0].value) == var and isinstance(n.targets[0].slice, ast.Constant) and isinstance(n.targets[0].slice.value, str):
+                            fields.setdefault(n.targets[0].slice.value, n.value)
+            tops = [x for x in dicts if "type" in x[2]]
+            if not tops:
+                raise AnalysisError(f"{f}: top-level dict of the pre-image not found")
+            tv, tnode, rd = tops[0]
+            rd = dict(rd)
+            # fields added by subscript stores / update on the variable that holds the top dict
+            par = tv.parent.get(id(tnode))
+            if isinstance(par, ast.Assign) and isinstance(par.targets[0], ast.Name):
+                var = par.targets[0].id
+                for n in walk_no_nested(tv.fi.node):
+                    if isinstance(n, ast.Assign) and isinstance(n.targets[0], ast.Subscript) and norm(n.targets[0].value) == var and isinstance(n.targets[0].slice, ast.Constant):
+                        rd[n.targets[0].slice.value] = n.value
+            for key in ("type", "weighted", "hypergraph_metadata", "edges", "nodes"):
+                res.check(key in rd, "S-HASHFIELDS", f, f'"{key}"', "top-level", f"`{key}` is missing from the hash pre-image: two hypergraphs differing only in it get the same hash", loc(tv.fi, tnode))
+            if "type" in rd:
+                res.check(isinstance(rd["type"], ast.Constant) and rd["type"].value == cls, "S-HASHFIELDS", f, norm(rd["type"]), "type-tag", "the type tag is not the class name", loc(tv.fi, tnode))
+            if "weighted" in rd:
+                e = tv.inline(rd["weighted"])
+                good = is_self_attr(e, "_weighted") or norm(e) == "self.is_weighted()"
+                res.add("S-HASHFIELDS", f, norm(rd["weighted"]), "weighted", "ok" if good else ("violation" if isinstance(e, ast.Constant) else "unknown"), "" if good else "weightedness is not taken from self._weighted", loc(tv.fi, tnode))
+            if "hypergraph_metadata" in rd:
+                e = tv.inline(rd["hypergraph_metadata"])
+                good = is_self_attr(e, "_hypergraph_metadata") or norm(e) == "self.get_hypergraph_metadata()"
+                res.add("S-HASHFIELDS", f, norm(rd["hypergraph_metadata"]), "hypergraph_metadata", "ok" if good else ("violation" if isinstance(e, (ast.Constant, ast.Dict)) else "unknown"), "" if good else "hypergraph metadata is not taken from self._hypergraph_metadata", loc(tv.fi, tnode))
+            erecs = [x for x in dicts if "nodes" in x[2] and x[1] is not tnode]
+            nrecs = [x for x in dicts if "node" in x[2]]
+            if not erecs or not nrecs:
+                raise AnalysisError(f"{f}: edge / node record idiom not recognised")
+            for ev_, a, er in erecs:
+                for key in ("nodes", "weight", "metadata"):
+                    res.check(key in er, "S-HASHFIELDS", f, f'edge record "{key}"', "edge-record", f"hyperedge `{key}` is missing from the hash pre-image", loc(ev_.fi, a))
+                if "nodes" in er:
+                    k = unrole(ev_.kind(er["nodes"]))
+                    want = unrole(T.KEY_C[cls])
+                    verdict = _shape_ok(k, want)
+                    res.add("S-HASHFIELDS", f, norm(er["nodes"]), "edge-key", verdict, "" if verdict == "ok" else f"the hashed hyperedge identity has kind {k!r}; the record key is {want!r} (a component such as time / layer / one role is lost)", loc(ev_.fi, a))
+                if "weight" in er:
+                    k = strip_none(ev_.kind(er["weight"]))
+                    vv = fits(k, WEIGHT)
+                    res.add("S-HASHFIELDS", f, norm(er["weight"]), "edge-weight", "violation" if isinstance(vv, Mismatch) else ("unknown" if isinstance(k, _Top) else "ok"), getattr(vv, "reason", ""), loc(ev_.fi, a))
+                if "metadata" in er:
+                    k = strip_none(ev_.kind(er["metadata"]))
+                    vv = fits(k, META)
+                    res.add("S-HASHFIELDS", f, norm(er["metadata"]), "edge-metadata", "violation" if isinstance(vv, Mismatch) else ("unknown" if isinstance(k, _Top) else "ok"), getattr(vv, "reason", ""), loc(ev_.fi, a))
+            for nv, a, nr in nrecs:
+                for key in ("node", "metadata"):
+                    res.check(key in nr, "S-HASHFIELDS", f, f'node record "{key}"', "node-record", f"node `{key}` is missing from the hash pre-image", loc(nv.fi, a))
+                if "node" in nr:
+                    k = nv.kind(nr["node"])
+                    res.add("S-HASHFIELDS", f, norm(nr["node"]), "node-label", "ok" if isinstance(k, Atom) and k.name == "NODE" else ("unknown" if isinstance(k, (_Top, Union)) else "violation"), f"kind {k!r}", loc(nv.fi, a))
+                if "metadata" in nr:
+                    k = strip_none(nv.kind(nr["metadata"]))
+                    res.add("S-HASHFIELDS", f, norm(nr["metadata"]), "node-metadata", "ok" if k == META else ("unknown" if isinstance(k, (_Top, Union)) else "violation"), f"kind {k!r}", loc(nv.fi, a))
         # ---- S-HASHSTALE: tables read by the hash are pruned by the removal operations
-        pruned = set()
-        for m in ("remove_edge", "remove_node"):
-            if m in ctx.methods(cls):
-                for o in ctx.view(f"{cls}.{m}").ops(with_calls=True):
-                    if o.op in ("del", "remove", "clear"):
-                        pruned.add(o.table)
-        scalars = {"_weighted", "_hypergraph_metadata", "_next_edge_id"}
-        read = {o.table for o in v.ops() if o.op in ("read", "iter", "member")}
-        for n in walk_no_nested(v.fi.node):
-            if is_self_attr(n) and n.attr in ctx.interp.class_tables[cls]:
-                read.add(n.attr)
-        for t in sorted(read - scalars):
-            res.check(t in pruned, "S-HASHSTALE", f, f"self.{t}", "pruned", f"the hash reads {t}, which remove_edge / remove_node never prune: content reached through an insert-then-remove detour hashes differently", loc(v.fi, v.fi.node))
-        if "clear" in ctx.methods(cls):
-            cleared = {o.table for o in ctx.view(f"{cls}.clear").ops() if o.op == "clear"}
-            for t in sorted(read - {"_weighted", "_next_edge_id"}):
-                res.check(t in cleared, "S-HASHSTALE", f, f"self.{t}", "cleared", f"the hash reads {t}, which clear() leaves populated", loc(v.fi, v.fi.node))
+        with res.guard(f"S-HASHSTALE of {d}"):
+            pruned = set()
+            for m in ("remove_edge", "remove_node"):
+                if m in ctx.methods(cls):
+                    for o in ctx.view(f"{cls}.{m}").ops(with_calls=True):
+                        if o.op in ("del", "remove", "clear"):
+                            pruned.add(o.table)
+            scalars = {"_weighted", "_hypergraph_metadata", "_next_edge_id"}
+            read = set()
+            for uv in uviews:
+                read |= {o.table for o in uv.ops(with_calls=True) if o.op in ("read", "iter", "member")}
+                read |= {tab for _, tab, _, _ in uv.mentions()}
+            for t in sorted(read - scalars):
+                res.check(t in pruned, "S-HASHSTALE", f, f"self.{t}", "pruned", f"the hash reads {t}, which remove_edge / remove_node never prune: content reached through an insert-then-remove detour hashes differently", loc(v.fi, v.fi.node))
+            if "clear" in ctx.methods(cls):
+                cleared = {o.table for o in ctx.view(f"{cls}.clear").ops(with_calls=True) if o.op in ("clear", "setattr")}
+                for t in sorted(read - {"_weighted", "_next_edge_id"}):
+                    res.check(t in cleared, "S-HASHSTALE", f, f"self.{t}", "cleared", f"the hash reads {t}, which clear() leaves populated", loc(v.fi, v.fi.node))
         # the joint-update rules that keep the hashed tables in step (shared with C01-C04)
         with res.guard("RC.check_remove_edgectx, res, cls"):
             RC.check_remove_edge(ctx, res, cls)
@@ -162,6 +241,8 @@ def _shape_ok(k, want) -> str:
     if isinstance(want, Seq):
         if isinstance(k, (Seq, Lst)) and isinstance(k.elem, Atom) and k.elem.name == "NODE":
             return "ok"
+        if isinstance(k, (Seq, Lst)) and isinstance(k.elem, (_Top, Union)):
+            return "unknown"
         return "violation"
     if isinstance(want, Tup):
         if isinstance(k, Tup) and len(k.items) == len(want.items):
